@@ -244,7 +244,16 @@ def value_observations(rng, n):
             fb = list(fa)
             k = rng.choice([5, 5, 4, 3, 2, 1, 0])
             fb[k] = (fb[k] + 1) % 4
+        # equal values that print differently (2 / 2.0 / True-as-1), and fields that cannot be hashed (lists): equality is
+        # field-wise whatever the fields print as, and hashes - where a record has one at all - agree on equal records
+        if j % 5 == 4 and ia == ib:
+            fb = [float(x) if k % 2 == 0 else x for k, x in enumerate(fa)]
         (A, ta, na, va), (B, tb, nb, vb) = makers[ia](fa), makers[ib](fb)
+        if j % 7 == 6 and 'properties' in na:
+            ka = na.index('properties')
+            A.properties, B.properties = [fa[0], (fa[1], 2)], [fb[0], (fb[1], 2.0)]
+            va, vb = list(va), list(vb)
+            va[ka], vb[ka] = A.properties, B.properties
         same = type(A) is type(B)
         fields = ta == tb and va == vb
         try:
@@ -252,8 +261,12 @@ def value_observations(rng, n):
         except Exception as e:      # noqa
             it = ['raised', repr(e)]
         rp = repr(A)
+        try:
+            heq = hash(A) == hash(B)
+        except TypeError:
+            heq = True          # a record holding an unhashable field has no hash: nothing is claimed about it
         obs.append({'k': 'rec', 'same': same and ta == tb, 'fields': bool(fields), 'eq': bool(A == B), 'ne': bool(A != B),
-                    'heq': hash(A) == hash(B), 'iter': it == va, 'cls': ta,
+                    'heq': heq, 'iter': it == va, 'cls': ta,
                     'repr': rp.startswith(ta + '(') and all('%s=%r' % (a, v) in rp for a, v in zip(na, va))})
     # aliases (an alias that cannot be read or written at all is an observation too: got = ['raised', ...])
     def got(fn):
